@@ -19,7 +19,9 @@ cmp_run() { # engine config prop
 }
 cmp_run e1 td C01; cmp_run e1 bu-big C04; cmp_run e1 bu-mixed C03; cmp_run e1 td-crash C19; cmp_run e1 td-checkerr C18
 cmp_run e1 x-any-td C19; cmp_run e1 v-td C20; cmp_run e1 m-td C08; cmp_run e1 id-td C15; cmp_run e1 td-backends C01; cmp_run e1 td-files C01
-cmp_run e2 short C10; cmp_run e2 long C11; cmp_run e3 fs C13; cmp_run e4 mix C14
+cmp_run e1 bu-insession C03; cmp_run e1 bu-insession-crash C19; cmp_run e1 td-crash-samesession C19; cmp_run e1 x-any-crash-samesession C19; cmp_run e1 bu-crash-samesession C19
+cmp_run e1 td-zst C09; cmp_run e1 bu-big-xl C04; cmp_run e1 v-bu-insession C20
+cmp_run e2 short C10; cmp_run e2 long C11; cmp_run e2 wide C10; cmp_run e3 fs C13; cmp_run e4 mix C14
 for w in 1 5; do
   x=$(VERIF_WORKERS=$w $S check C04 quick | grep -E "^summary|^VIOLATION" | sed 's/wall_s=[0-9.]*//'); y=$(VERIF_WORKERS=16 $S check C04 quick | grep -E "^summary|^VIOLATION" | sed 's/wall_s=[0-9.]*//')
   [ "$x" = "$y" ] && echo "C04 quick workers=$w vs 16 identical summary" || { echo "C04 quick workers=$w vs 16 DIFFER"; fail=1; }
